@@ -151,10 +151,33 @@ def run(tier):
     rep.check("saphyr::encoding::decode_loop" in calls and any(c and c.endswith("::load_from_str") for c in calls), "decode-wiring", "decode",
               "YamlDecoder::decode no longer decodes through decode_loop and loads the decoded text", site=dec.span)
 
+    # BOM-less UTF-16 detection must work for a one-character document: the blocks that answer UTF_16BE/UTF_16LE may be dominated by
+    # length tests establishing at most len >= 2 (one UTF-16 code unit), and both answers must exist
+    det = F.fn("saphyr::encoding::detect_utf16_endianness")
+    answers = {}
+    for bi, si, s in cfg.stmts(det):
+        if s["k"] == "assign" and s["rv"]["k"] == "use":
+            c = op_const(s["rv"]["a"])
+            if c is not None and c.get("static", "").startswith("encoding_rs::UTF_"):
+                answers.setdefault(c["static"].split("::")[-1], []).append(bi)
+    rep.check({"UTF_16BE", "UTF_16LE", "UTF_8"} <= set(answers), "utf16-detection", "answers", "detect_utf16_endianness no longer answers UTF_16BE, UTF_16LE and UTF_8",
+              site=det.span, detail=sorted(answers))
+    for enc in ("UTF_16BE", "UTF_16LE"):
+        for bi in answers.get(enc, []):
+            need = 0
+            for fct, gb, gt in panics._dominating_facts(det, bi):
+                if fct[1] == "ge":
+                    need = max(need, fct[2])
+            rep.check(need <= 2, "utf16-detection", enc, "the %s answer needs at least %d bytes of input: a two-byte input (one character, no BOM) is decoded as UTF-8 instead"
+                      % (enc, need), site=det.span, detail={"min_len": need})
+    # decode() falls back to it when there is no BOM
+    rep.check(any(ck == det.key for g in [dec] + F.closures_of(dec.key) for _, _, ck, _ in g.calls()), "utf16-detection", "fallback",
+              "YamlDecoder::decode no longer falls back to detect_utf16_endianness when there is no BOM", site=dec.span)
+
     # panic sites of encoding.rs
     table = panics.load_table(os.path.join(facts.VERIF, "tables", "panic_review_encoding.json"))
     fns = sorted(k for k, f in F.fns.items() if f.file.endswith("saphyr/src/encoding.rs") and "::test::" not in k)
     total, disc, residual = panics.review(rep, "panic-review", F, fns, table, short)
     rep.extra["panic_sites"] = {"total": total, "mechanically_discharged": disc, "reviewed": sum(len(v) for v in residual.values())}
-    rep.floor("panic-capable sites inventoried in encoding.rs", total, 15)
+    rep.floor("panic-capable sites inventoried in encoding.rs", total, 6)
     return rep
